@@ -242,17 +242,17 @@ def run(pid, tier, seed, replay=None):
         execs, status = [ex], {}
     else:
         fixed = FIXED_C01 if pid == "C01" else FIXED_C02
-        nseeds = 24 if tier == "quick" else 400
-        nrand = 30 if tier == "quick" else 600
+        nseeds = 24 if tier == "quick" else 120
+        nrand = 30 if tier == "quick" else 300
         execs, status = record(fixed, (seed * 1000 + 1, seed * 1000 + 1 + nseeds), "mix", os.path.join(vlib.BUILD, "traces", pid + "_fixed"))
         rprogs = [gen_program(rng, pid == "C02") for _ in range(nrand)]
         e2, s2 = record(rprogs, (seed * 1000 + 1, seed * 1000 + (5 if tier == "quick" else 9)), "mix", os.path.join(vlib.BUILD, "traces", pid + "_rand"), jobs=4)
         execs += e2
         pbp = PB_C01 if pid == "C01" else PB_C02
-        e3, s3 = record(pbp, (1, 2), "pb", os.path.join(vlib.BUILD, "traces", pid + "_pb"), extra=["--pb-bound", "2" if tier == "quick" else "3", "--max-execs", "700" if tier == "quick" else "20000"])
+        e3, s3 = record(pbp, (1, 2), "pb", os.path.join(vlib.BUILD, "traces", pid + "_pb"), extra=["--pb-bound", "2" if tier == "quick" else "3", "--max-execs", "700" if tier == "quick" else "4000"])
         execs += e3
         # spec -> code: TLC-generated behaviours of the L2 model replayed step by step into the real queue
-        nbeh = 60 if tier == "quick" else 1500
+        nbeh = 60 if tier == "quick" else 500
         beh = bq.tlc_behaviours(os.path.join(SPEC, "MC_BQ.tla"), os.path.join(SPEC, "mc", "BQ_sim.cfg"), nbeh, 160, seed, os.path.join(vlib.BUILD, "sim_" + pid))
         sf = os.path.join(vlib.BUILD, "traces", pid + "_scripts.txt")
         open(sf, "w").write("\n".join("cap=%d,base=%d,prog=%s|%s" % (c, b, p, ",".join(map(str, st))) for c, b, p, st in beh) + "\n")
